@@ -65,7 +65,7 @@ var coqOpNames = []string{"UPos", "UNeg", "UCpl", "UNot", "UVoid", "UTypeof", "U
 func (e *xexpr) coq() string {
 	switch e.k {
 	case xId:
-		return "(EId " + CBytes([]byte(e.s)) + ")"
+		return "(EId " + CBytes([]byte(asciiIdent(e.s))) + ")"
 	case xNum:
 		return "(ENum " + CBytes([]byte(e.s)) + ")"
 	case xRe:
@@ -77,6 +77,20 @@ func (e *xexpr) coq() string {
 	default:
 		return "(EBin " + coqOpNames[e.op] + " " + e.a.coq() + " " + e.b.coq() + ")"
 	}
+}
+
+// the text of an identifier under the ASCII-only charset (independent of the printer:
+// astral code points become \u{HEX}; the pool has no other non-ASCII characters)
+func asciiIdent(s string) string {
+	var sb strings.Builder
+	for _, c := range s {
+		if c > 0xFFFF {
+			fmt.Fprintf(&sb, "\\u{%X}", c)
+		} else {
+			sb.WriteRune(c)
+		}
+	}
+	return sb.String()
 }
 
 type treeBuilder struct {
@@ -118,16 +132,16 @@ func printTree(e *xexpr, minifyWhitespace bool) string {
 	symbols := ast.NewSymbolMap(1)
 	symbols.SymbolsForSource[0] = tb.symbols
 	tree := js_ast.AST{Parts: []js_ast.Part{{Stmts: []js_ast.Stmt{{Data: &js_ast.SExpr{Value: expr}}}}}}
-	res := js_printer.Print(tree, symbols, renamer.NewNoOpRenamer(symbols), js_printer.Options{MinifyWhitespace: minifyWhitespace})
+	res := js_printer.Print(tree, symbols, renamer.NewNoOpRenamer(symbols), js_printer.Options{MinifyWhitespace: minifyWhitespace, ASCIIOnly: true})
 	return strings.TrimSuffix(strings.TrimSuffix(string(res.JS), ";\n"), ";")
 }
 
-var identPool = []string{"a", "b", "c", "x1", "$", "_", "of", "get", "set", "async", "static", "type", "as", "from", "in1", "typeofx", "voidy", "i", "n", "instance", "delete_", "Z9", "await_", "e", "E1", "x", "in_", "this", "null", "true", "false"}
+var identPool = []string{"a\U00010000", "x1\U00020000", "a", "b", "c", "x1", "$", "_", "of", "get", "set", "async", "static", "type", "as", "from", "in1", "typeofx", "voidy", "i", "n", "instance", "delete_", "Z9", "await_", "e", "E1", "x", "in_", "this", "null", "true", "false"}
 
-const nTargetIdents = 27 // prefix of identPool that may be assigned to
+const nTargetIdents = 29 // prefix of identPool that may be assigned to
 
 var propPool = []string{"a", "b", "length", "x1", "$", "_p", "e", "E", "toString", "n0", "e1", "x", "of"}
-var reBodies = []string{"x", "a+", "ab*c", "=", "==", "script", "SCRIPT>", "Script x", "scrip", "(?:a|b)", " ", "a b", "^$", "-->", "<!--", "-", ".", "!--", "+?a", "a{2}"}
+var reBodies = []string{"x", "a+", "ab*c", "=", "==", "script", "SCRIPT>", "Script x", "scrip", "(?:a|b)", " ", "a b", "^$", "-->", "<!--", "-", ".", "!--", "a+?", "a{2}"}
 var reFlags = []string{"", "g", "i", "gi", "m", "s", "u", "y", "d", "gimsuy"}
 
 func genNum(r *Rng) *xexpr {
@@ -174,8 +188,13 @@ var prefixOps = []js_ast.OpCode{js_ast.UnOpPos, js_ast.UnOpNeg, js_ast.UnOpCpl, 
 // operators whose gluing is delicate get extra weight
 var hotBin = []js_ast.OpCode{js_ast.BinOpAdd, js_ast.BinOpSub, js_ast.BinOpLt, js_ast.BinOpGt, js_ast.BinOpDiv, js_ast.BinOpIn, js_ast.BinOpInstanceof, js_ast.BinOpShl, js_ast.BinOpPow, js_ast.BinOpNullishCoalescing, js_ast.BinOpLogicalOr}
 
+var leavesIdOnly bool
+
 func genTree(r *Rng, depth int) *xexpr {
 	if depth <= 0 || r.Chance(18) {
+		if leavesIdOnly {
+			return &xexpr{k: xId, s: identPool[r.Intn(nTargetIdents)]}
+		}
 		switch r.Intn(10) {
 		case 0, 1, 2, 3, 4:
 			return &xexpr{k: xId, s: r.Pick(identPool)}
@@ -263,6 +282,13 @@ func gluingGrid() []*xexpr {
 		out = append(out, bin(js_ast.BinOpIn, &xexpr{k: xNum, s: n, value: v}, id("a")))
 	}
 	out = append(out, &xexpr{k: xDot, a: &xexpr{k: xRe, s: "x", f: ""}, s: "e"}, bin(js_ast.BinOpIn, &xexpr{k: xRe, s: "x", f: ""}, id("a")), bin(js_ast.BinOpInstanceof, &xexpr{k: xRe, s: "x", f: "g"}, id("a")))
+	for _, b := range []js_ast.OpCode{js_ast.BinOpIn, js_ast.BinOpInstanceof, js_ast.BinOpAdd, js_ast.BinOpComma, js_ast.BinOpAssign} {
+		out = append(out, bin(b, id("a\U00010000"), id("b")), bin(b, id("b"), id("a\U00010000")))
+		if b != js_ast.BinOpAssign {
+			out = append(out, bin(b, un(js_ast.UnOpPostInc, id("a\U00010000")), id("b")))
+		}
+	}
+	out = append(out, un(js_ast.UnOpTypeof, id("a\U00010000")), &xexpr{k: xDot, a: id("a\U00010000"), s: "e"}, bin(js_ast.BinOpIn, un(js_ast.UnOpVoid, id("a\U00010000")), id("x1\U00020000")))
 	out = append(out, un(js_ast.UnOpTypeof, &xexpr{k: xRe, s: "x", f: ""}), un(js_ast.UnOpVoid, un(js_ast.UnOpTypeof, id("a"))), un(js_ast.UnOpTypeof, un(js_ast.UnOpNeg, id("a"))))
 	return out
 }
@@ -318,8 +344,10 @@ func runC13(seed uint64, n int, tier string, outDir string) []*Stats {
 	trees = append(trees, gluingGrid()...)
 	nTrees := n
 	for i := 0; i < nTrees; i++ {
+		leavesIdOnly = i%3 == 0
 		trees = append(trees, genTree(r, r.Range(1, 4)))
 	}
+	leavesIdOnly = false
 	items = nil
 	var printed []printedTree
 	nGrid := len(gluingGrid())
@@ -332,7 +360,11 @@ func runC13(seed uint64, n int, tier string, outDir string) []*Stats {
 			out := printTree(e, m)
 			items = append(items, fmt.Sprintf("(%s,%s,%s)", CBool(m), e.coq(), CBytes([]byte(out))))
 			st.Note("print-tree", out+fmt.Sprint(m), e.k == xUn || e.k == xBin)
-			printed = append(printed, printedTree{out, m})
+			other := ""
+			if idOnly(e) {
+				other = printTree(e, !m)
+			}
+			printed = append(printed, printedTree{out, m, other, i < nGrid})
 			if i%97 == 0 {
 				st.Sample(map[string]interface{}{"tree_printed": out, "minify_whitespace": m})
 			}
@@ -352,8 +384,27 @@ func runC13(seed uint64, n int, tier string, outDir string) []*Stats {
 }
 
 type printedTree struct {
-	text string
-	mw   bool
+	text  string
+	mw    bool
+	other string // the same tree printed in the other white-space mode ("" when the tree has constant leaves that esbuild folds)
+	grid  bool   // member of the exhaustive operator-adjacency grid
+}
+
+// only plain identifiers at the leaves: nothing esbuild's parser could fold or drop
+func idOnly(e *xexpr) bool {
+	switch e.k {
+	case xId:
+		return e.s != "this" && e.s != "null" && e.s != "true" && e.s != "false"
+	case xNum, xRe:
+		return false
+	case xDot:
+		return idOnly(e.a)
+	case xUn:
+		// typeof/void have a known type, which lets the parser simplify "??", "!" and "||" around them
+		return e.op != js_ast.UnOpTypeof && e.op != js_ast.UnOpVoid && idOnly(e.a)
+	default:
+		return e.op != js_ast.BinOpNullishCoalescing && idOnly(e.a) && idOnly(e.b)
+	}
 }
 
 func sortStrings(a []string) {
